@@ -350,6 +350,22 @@ Proof. intros Hn Hne. unfold enum_toks. cbn [app]. rewrite p_item_alias. rewrite
   - apply stop_semi.
   - rewrite E. exists t. split; [reflexivity|]. cbn [item_ok forallb]. rewrite Hn, Ht. reflexivity. Qed.
 
+(* an enum without listed variants: export type N = never ; *)
+Definition never_toks (name : str) : list tk := [KId (L "export"); KId (L "type"); KId name; P "="; KId (L "never"); P ";"].
+Theorem enum_alias_never_ok name rest : is_binding_name name = true ->
+  p_item (never_toks name ++ rest) = Some (ITypeAlias name [] (TyRef [L "never"] []), rest) /\
+  item_ok (ITypeAlias name [] (TyRef [L "never"] [])) = true.
+Proof. intros Hn. split.
+  - unfold never_toks. cbn [app]. rewrite p_item_alias. unfold ptype. change TYF with (S 63).
+    rewrite (leaf_parse 63 (L "never") rest) by reflexivity. reflexivity.
+  - cbn [item_ok forallb]. rewrite Hn. reflexivity. Qed.
+Definition ex_empty_enum : c_struct :=
+  {| cs_name := L "Status"; cs_enum := true; cs_serde := [];
+     cs_fields := [ {| cf_name := L "Active"; cf_ty := QTuple []; cf_serde := [SSkip]; cf_val := None |} ] |}.
+Lemma never_example : lexed (enum_chunks g0 ex_empty_enum) = never_toks (L "Status") /\ c01_ok (text (enum_chunks g0 ex_empty_enum)) = true /\
+  c01_ok (text (zod_struct_chunks g0 ex_empty_enum)) = true.
+Proof. vm_compute. repeat split. Qed.
+
 (* the token renderings used above are what the lexer sees of the model's text (checked on every generated
    case at run time by lex_compositional; here on a sample) *)
 Lemma tokens_example :
